@@ -30,13 +30,34 @@ type Lens[S, A any] interface {
 func NewLens[S, A any](t hseq.Type[S]) Lens[S, A] {
 	ft := t.Type
 	fv := reflect.TypeOf(new(A)).Elem()
+	cat := reflect.TypeOf(new(S)).Elem()
 
-	if ft.String() == fv.String() && ft.AssignableTo(fv) {
+	if ft == fv && focusable(cat, t.RootOffs+t.Offset, fv) {
 		return &lens[S, A]{t}
 	}
 
-	cat := reflect.TypeOf(new(S)).Elem()
 	panic(fmt.Errorf("invalid type: Lens[%s, %s] not compatible with %s", cat.Name(), ft.Name(), fv.Name()))
+}
+
+// focusable checks that a field of type ft is located at the offset of the
+// struct cat, following plain and embedded struct values only (a field behind
+// a pointer is not part of the struct's memory).
+func focusable(cat reflect.Type, offset uintptr, ft reflect.Type) bool {
+	if cat.Kind() != reflect.Struct {
+		return false
+	}
+
+	for i := 0; i < cat.NumField(); i++ {
+		f := cat.Field(i)
+		if f.Offset == offset && f.Type == ft {
+			return true
+		}
+		if f.Type.Kind() == reflect.Struct && f.Offset <= offset && focusable(f.Type, offset-f.Offset, ft) {
+			return true
+		}
+	}
+
+	return false
 }
 
 type lens[S, A any] struct{ hseq.Type[S] }
